@@ -146,6 +146,16 @@ CHECKS["C20"] = dict(
          "behaviour, to_pack_list, bytes and decoded attributes.",
     note="Per-field packers are shared by all forms (their correctness is C02). Invalid constructor calls are not compared.")
 
+CHECKS["C10"] = dict(
+    category="exploration", design_ref="DESIGN.md 2/C10",
+    technique="bounded-exhaustive operation words + Hypothesis histories on the real RequestCache under a virtual clock vs an explicit model of outstanding requests",
+    text="Operation words (add with drawn on_timeout behaviour / add_random with forced collisions / pop / get / has / "
+         "retrieve_cache handler / passthrough / register_future / clear / shutdown / advance to a deadline -eps,+0,+eps / "
+         "same-iteration races) are enumerated to depth 6 (quick) / 7-8 (thorough) over three 8-letter alphabets and drawn by "
+         "Hypothesis to length 40; every on_timeout call and every API result is judged against a model; ties between equal "
+         "deadlines are accepted in either order.",
+    note="Single-threaded (the RLock is not contended). on_timeout callbacks that raise and nested passthroughs are not generated.")
+
 PENDING = {}
 
 def main():
